@@ -215,9 +215,9 @@ Definition flush_wrapping (s : subr) : res subr :=
   | None => Ok s
   | Some w =>
     let '(w1, frags) := take_trailing_fragments w in
-    do ls <- wb_into_lines w1;
-    let s1 := extend_lines (set_wrapping s None) (map RText ls) in
-    Ok (set_lines s1 (slines s1) (pending_frags s1 ++ frags))
+    do lm <- wb_into_lines_markers w1;
+    let s1 := extend_lines (set_wrapping s None) (map RText (fst lm)) in
+    Ok (set_lines s1 (slines s1) (pending_frags s1 ++ snd lm ++ frags))
   end.
 
 Definition sub_into_lines (s : subr) : res (list rline) :=
